@@ -237,8 +237,8 @@ impl Machine for Rev {
 
 pub fn run(cli: &Cli) -> Report {
     let mut rep = Report::new(cli, "model_checking");
-    rep.rule("E2: every sequence of revertible operations on a real Market account (RevertibleMarket through the visibility hook; each operation = begin, up to two writes with a read of all 23 slots after each, then commit or abandon), for a family of runs whose three-slot write alphabets together cover every pool kind, the three clocks and the other-state fields; reads at begin must equal storage, reads after a write the overlay, storage moves only at commit and then equals the overlay; the state key is the full account data (revision counters and stale buffer contents included)");
-    rep.assume("operations cannot overlap (the revertible market borrows the account), so an interleaving is a sequence of whole operations; mint/burn deferral of RevertibleLiquidityMarket is not covered");
+    rep.rule("E2: every sequence of revertible operations on a real Market account (RevertibleMarket through the visibility hook; each operation = begin, up to two writes with a read of all 23 slots after each, then commit or abandon), for a family of runs whose three-slot write alphabets together cover every pool kind, the three clocks and the other-state fields; reads at begin must equal storage, reads after a write the overlay, storage moves only at commit and then equals the overlay; the state key is the full account data (revision counters and stale buffer contents included). Program part (E3): breadth-first exploration of real create / execute / close instructions of deposits (two mints in one operation), withdrawals (one burn) and shifts (a burn in one market and a mint in another: two revertible markets in one operation), half of them with an unreachable minimum output (abandoned after the operation observed its writes), with clock advances and feed re-publication: an abandoned operation leaves pools, balances, other state, clocks, the market-token supply and every market-token holding unchanged, every other pending operation executes identically with and without the abandoned one before it, and a committed operation leaves exactly the state, supply change and payout that the same generic operation produces on a plain in-memory market (SDK MarketModel on the pre-state)");
+    rep.assume("operations cannot overlap (the revertible market borrows the account), so an interleaving is a sequence of whole operations; the mint/burn deferral of RevertibleLiquidityMarket is exercised through the real instructions (program part), not through a direct handle");
     svm::install();
     svm::set_clock(1_000, 10);
     let (long, short) = (addr("c21-long"), addr("c21-short"));
@@ -274,5 +274,6 @@ pub fn run(cli: &Cli) -> Report {
         let depth = if th { 4 } else { 3 };
         e2::explore(&mut rep, &name, &m, vec![start], &e2::Config { depth, max_states: 2_000_000 }, json!({}));
     }
+    crate::c21liq::run_section(&mut rep, cli);
     rep
 }
